@@ -114,6 +114,10 @@ def apply_op(ds, op, aux=None, args=None):
             return part.ptm5(**kw)
         if m == "bbox":
             return part.bbox(args.get("bboxes", [dict(b) for b in op["bboxes"]]))
+    if m == "reconstruct":
+        from wavespectra.construct import partition_and_reconstruct
+
+        return partition_and_reconstruct(ds, parts=op["parts"], partition_method=op["method"], **kw)
     if m == "plot":
         import matplotlib
 
@@ -151,6 +155,8 @@ def gen_op(rng, recipe, pool="all"):
         groups += ["smooth", "rotate", "interp"]
     if pool in ("all", "partition") and has_dir and nd >= 3 and nf >= 3:
         groups += ["ptm123"] * 4 + ["ptm45", "bbox", "hp01"]
+        if pool == "partition" and any(k in ("time", "site") for k, _ in recipe.get("dims", [])):
+            groups += ["recon"]
     if pool in ("all", "fit"):
         groups += ["fit"] * 2
     if pool in ("all", "stats", "transform") and any(k == "site" for k, _ in recipe.get("dims", [])):
@@ -293,6 +299,10 @@ def gen_op(rng, recipe, pool="all"):
             return {"m": "ptm4", "via": via, "kw": {"agefac": rng.choice([1.7, 1.2])}, "scalar_winds": rng.random() < 0.1}
         fcut = fmid if rng.random() < 0.6 else float(freqs[nf // 2])
         return {"m": "ptm5", "via": via, "kw": {"fcut": fcut, "interpolate": rng.random() < 0.6}}
+    if g == "recon":
+        # partition -> statistics of each partition -> parametric spectra rebuilt from them, all on the lazy dataset
+        return {"m": "reconstruct", "via": "ds", "parts": rng.choice([2, 3]), "method": rng.choice(["ptm1", "ptm3", "ptm3"]),
+                "kw": {"method_combine": rng.choice(["max", "max", "sum"])}}
     if g == "bbox":
         boxes = [{"fmin": float(freqs[0]), "fmax": fmid, "dmin": 0.0, "dmax": 180.0}]
         if rng.random() < 0.5:
@@ -315,4 +325,6 @@ def op_label(op):
     extra = ""
     if op["m"] == "stats":
         extra = "[" + ",".join(op["stats"]) + "]"
+    if op["m"] == "reconstruct":
+        extra = f"[{op['method']},{op['parts']}]"
     return f"{op['m']}{extra}({kws}){'[scalar-winds]' if op.get('scalar_winds') else ''}"
